@@ -113,9 +113,11 @@ func main() {
 		Run: func(t *vlib.T) {
 			runA(t)
 			runB(t)
+			runG(t)
 			runD(t)
 			runE(t)
 			runF(t)
+			runCLate(t)
 			runC(t)
 		},
 		Extra: func(tier string, cov map[string]interface{}) {
@@ -130,7 +132,8 @@ func boundsDoc(tier string) map[string]interface{} {
 		"A": fmt.Sprintf("%d condition atoms (%d context values, %d literals); chains of 1 and 2 conditions over all atoms, of 3 conditions over %s; each with and without else",
 			len(atoms()), nCtxAtoms(), len(atoms())-nCtxAtoms(), map[bool]string{false: "a 14-atom representative subset", true: "all atoms"}[th]),
 		"B": bBoundsDoc(th),
-		"C": cBoundsDoc(th),
+		"C": cBoundsDoc(th) + " Plus the " + cLateBoundsDoc(th) + ".",
+		"G": gBoundsDoc(th),
 		"E": fmt.Sprintf("every chain of 1..%d enclosing constructs from {if (taken), if/else (else taken), if/elseif (elseif taken), for over 3 elements, for over nothing with else} around the first assignment of a new variable", eMaxDepth(th)),
 		"F": fBoundsDoc(th),
 		"D": fmt.Sprintf("assignment chains of length <= %d over %d assignment statements, set form and do form", dMaxLen(th), len(dAlphabet)),
